@@ -71,6 +71,27 @@ func (p Path) Resolve(v ssa.Value) ssa.Value {
 	return v
 }
 
+// ExpandedAtoms returns the path's atoms plus, for every atom whose condition
+// is a phi (a bool computed by `a && b` in value position, then branched on),
+// the atom of the value the phi takes on this path. Constant resolutions are
+// dropped.
+func (p Path) ExpandedAtoms() []Atom {
+	out := append([]Atom(nil), p.Atoms...)
+	for _, a := range p.Atoms {
+		if phi, ok := a.V.(*ssa.Phi); ok {
+			rv := p.Resolve(phi)
+			if rv == ssa.Value(phi) {
+				continue
+			}
+			if _, isC := ConstBool(rv); isC {
+				continue
+			}
+			out = append(out, MkAtom(rv, a.Pos))
+		}
+	}
+	return out
+}
+
 // HasAtomOn reports whether the path carries an atom on exactly value v with
 // polarity pol.
 func (p Path) HasAtomOn(v ssa.Value, pol bool) bool {
@@ -140,7 +161,33 @@ func EnumPathsOpt(from *ssa.BasicBlock, stop func(*ssa.BasicBlock) bool, limit i
 			paths = append(paths, Path{Blocks: append([]*ssa.BasicBlock(nil), blocks...), Atoms: append([]Atom(nil), atoms...)})
 			return
 		}
-		for _, si := range feasibleSuccs(b) {
+		succs := feasibleSuccs(b)
+		// A branch on a boolean phi whose value is a constant along the
+		// current path (short-circuit evaluation in value position) has only
+		// one feasible edge.
+		if len(b.Succs) == 2 {
+			if iff, ok := b.Instrs[len(b.Instrs)-1].(*ssa.If); ok {
+				cond, neg := iff.Cond, false
+				for {
+					u, ok := cond.(*ssa.UnOp)
+					if !ok || u.Op != token.NOT {
+						break
+					}
+					cond, neg = u.X, !neg
+				}
+				if phi, ok := cond.(*ssa.Phi); ok {
+					cur := Path{Blocks: blocks}
+					if cv, ok := ConstBool(cur.Resolve(phi)); ok {
+						if cv != neg {
+							succs = []int{0}
+						} else {
+							succs = []int{1}
+						}
+					}
+				}
+			}
+		}
+		for _, si := range succs {
 			s := b.Succs[si]
 			if on[s] {
 				// A cycle that is not cut by stop: end the path at the repeated
